@@ -271,6 +271,16 @@ var truePairs = [][2]rune{
 	{0x3008, 0x3009}, {0x300A, 0x300B}, {0x3014, 0x3015}, {0x27E8, 0x27E9}, {0x207D, 0x207E},
 }
 
+// drawPair draws a delimiter pair: half of the time one of the favoured true pairs (ASCII most
+// often), otherwise any pair of the library's table, uniformly.
+func drawPair(t *rapid.T, label string) [2]rune {
+	k := rapid.IntRange(0, 2*len(genPairIdx)-1).Draw(t, label)
+	if k < len(genPairIdx) || len(tablePairs) == 0 {
+		return truePairs[genPairIdx[k%len(genPairIdx)]]
+	}
+	return tablePairs[rapid.IntRange(0, len(tablePairs)-1).Draw(t, label+"Table")]
+}
+
 // pairs the generator favours (ASCII most often)
 var genPairIdx = []int{0, 0, 0, 0, 1, 1, 2, 3, 4, 5, 5, 6, 7, 8, 9, 10, 10, 11, 12, 13, 14, 15, 16, 17}
 
@@ -348,7 +358,7 @@ func (g *textGen) seq(t *rapid.T, depth int) {
 				g.word(t)
 				break
 			}
-			p := truePairs[genPairIdx[rapid.IntRange(0, len(genPairIdx)-1).Draw(t, "pair")]]
+			p := drawPair(t, "pair")
 			g.emit(p[0])
 			g.seq(t, depth+1)
 			g.emit(p[1])
@@ -357,7 +367,7 @@ func (g *textGen) seq(t *rapid.T, depth int) {
 			case 0:
 				g.emit(one(t, gOtherDelims, "otherdelim"))
 			default:
-				p := truePairs[genPairIdx[rapid.IntRange(0, len(genPairIdx)-1).Draw(t, "pair")]]
+				p := drawPair(t, "pair")
 				g.emit(p[rapid.IntRange(0, 1).Draw(t, "side")])
 			}
 		case k < 81:
@@ -432,8 +442,8 @@ func (g *textGen) deep(t *rapid.T) {
 		pool = allWordScripts
 	}
 	kindMode := rapid.IntRange(0, 2).Draw(t, "kindMode")
-	k0 := genPairIdx[rapid.IntRange(0, len(genPairIdx)-1).Draw(t, "kind0")]
-	k1 := genPairIdx[rapid.IntRange(0, len(genPairIdx)-1).Draw(t, "kind1")]
+	k0 := drawPair(t, "kind0")
+	k1 := drawPair(t, "kind1")
 	pWord := []int{0, 4, 12, 35}[rapid.IntRange(0, 3).Draw(t, "pWord")]
 	pSibling := []int{0, 0, 6, 20}[rapid.IntRange(0, 3).Draw(t, "pSibling")]
 	marked := map[int]bool{}
@@ -456,18 +466,18 @@ func (g *textGen) deep(t *rapid.T) {
 				k = k1
 			}
 		case 2:
-			k = genPairIdx[rapid.IntRange(0, len(genPairIdx)-1).Draw(t, "kind")]
+			k = drawPair(t, "kind")
 		}
-		g.emit(truePairs[k][0])
-		closers = append(closers, truePairs[k][1])
+		g.emit(k[0])
+		closers = append(closers, k[1])
 		v := rapid.IntRange(0, 99).Draw(t, "after")
 		if marked[i] || v < pWord {
 			g.wordOf(t, pool)
 		}
 		if v >= 100-pSibling {
-			g.emit(truePairs[k1][0])
+			g.emit(k1[0])
 			g.wordOf(t, pool)
-			g.emit(truePairs[k1][1])
+			g.emit(k1[1])
 		}
 	}
 	g.wordOf(t, pool)
@@ -560,7 +570,7 @@ func (g *textGen) long(t *rapid.T) {
 // delimiter stack is not cleared), 3 deep nesting, 4 long text.
 func genText(t *rapid.T, maxLen int, shape int) []rune {
 	g := &textGen{budget: maxLen}
-	p := truePairs[genPairIdx[rapid.IntRange(0, len(genPairIdx)-1).Draw(t, "shapepair")]]
+	p := drawPair(t, "shapepair")
 	switch shape {
 	case shapeDeep:
 		g.budget = 1 << 20
